@@ -15,7 +15,7 @@ RULE = ('(a) dataset recipe (8 shapes, n 5..600, loc/scale over 5 decades, const
         'default, parametric/bounded filter combination, explicit candidate list of 1..4 entries given as classes, FQN '
         'strings or configured instances; oracle = own loop (fresh instance, fit, scipy kstest) giving the KS distance of '
         'every candidate: the selected family must be fittable with KS <= min + 1e-12, and .candidates must equal the tag '
-        'filter / explicit list. (b) GaussianMultivariate with a generated per-column configuration (class, FQN, instance '
+        'filter / explicit list. (a2) the same on samples of 4000..9000 rows that no candidate fits well (zero-inflated, few-valued, far bimodal), where every KS p-value underflows to 0. (b) GaussianMultivariate with a generated per-column configuration (class, FQN, instance '
         'with options, Univariate prototype, dict with missing keys, a distribution whose fit raises): every column is '
         'modelled by what was configured, options are carried, unnamed columns use the default, failing columns fall back '
         'to a Gaussian (loc/scale = mean/std) and fit succeeds. Non-trivial: >= 2 fittable candidates with distinct KS, or '
@@ -93,8 +93,8 @@ def cand_name(c):
 def oracle_selection(case):
     from copulas.utils import get_instance
 
-    x = c03.make_data(case['data'])
-    if len(np.unique(x)) < 5:
+    x = np.array(case['_x'], dtype=float) if case.get('_x') is not None else c03.make_data(case['data'])
+    if len(np.unique(x)) < (3 if case.get('_x') is not None else 5):
         return {'nontrivial': False, 'classes': ['too-few-distinct']}
     cfg = case['config']
     u = build_univariate(cfg)
@@ -119,7 +119,10 @@ def oracle_selection(case):
         except Exception:
             table.append((cand_name(c), None))
     fittable = [(n, k) for n, k in table if k is not None]
+    cand_before = list(u.candidates)
     kind, err = call(u.fit, x.copy(), allow=(Exception,), what='Univariate.fit')
+    require(len(u.candidates) == len(cand_before) and all(a is b for a, b in zip(u.candidates, cand_before)),
+            'Univariate.fit changed the candidate list: %r -> %r' % ([cand_name(c) for c in cand_before], [cand_name(c) for c in u.candidates]), tag='candidates-mutated')
     if not fittable:
         return {'nontrivial': False, 'classes': ['no-fittable-candidate', 'fit:' + kind]}
     require(kind == 'ok', 'Univariate.fit raised %s: %s although %r can be fitted' % (type(err).__name__, err, [n for n, _ in fittable]), tag='fit-raised')
@@ -146,6 +149,30 @@ def oracle_selection(case):
     distinct = len({round(k, 12) for _, k in fittable}) >= 2
     return {'nontrivial': len(fittable) >= 2 and distinct, 'classes': ['mode:' + cfg['mode'], 'selected:' + sel,
                                                                         'fittable=%d' % len(fittable)]}
+
+
+def large_strategy():
+    return st.fixed_dictionaries({
+        'shape': st.sampled_from(['zero-inflated', 'few-valued', 'bimodal-far', 'half-constant']), 'n': st.integers(4000, 9000), 'seed': S.SEEDS,
+        'cands': st.permutations(['GammaUnivariate', 'GaussianUnivariate', 'GaussianKDE', 'UniformUnivariate', 'StudentTUnivariate']).map(lambda l: list(l)[:4]),
+    })
+
+
+def oracle_large(case):
+    """Large samples that no candidate fits well: every KS p-value underflows, only the statistic can rank."""
+    rs = np.random.RandomState(case['seed'])
+    n = case['n']
+    sh = case['shape']
+    if sh == 'zero-inflated':
+        x = np.where(rs.uniform(size=n) < 0.85, 0.0, rs.gamma(2.0, 3.0, size=n))
+    elif sh == 'few-valued':
+        x = rs.choice([0.0, 1.0, 2.0, 10.0], size=n, p=[0.5, 0.3, 0.15, 0.05])
+    elif sh == 'bimodal-far':
+        x = np.where(rs.uniform(size=n) < 0.5, rs.normal(size=n) * 0.01, 100 + rs.normal(size=n) * 0.01)
+    else:
+        x = np.where(rs.uniform(size=n) < 0.5, 3.0, rs.uniform(0, 1, size=n))
+    cfg = {'mode': 'candidates', 'cands': [{'form': 'class', 'name': c} for c in case['cands']]}
+    return oracle_selection({'data': None, 'config': cfg, '_x': x.tolist(), 'label': sh})
 
 
 # ---- (b) per-column configuration --------------------------------------------------------------------
@@ -263,5 +290,6 @@ def oracle_columns(case):
 SUBS = [
     Sub('selection_optimality', st.fixed_dictionaries({'data': c03.data_strategy(600), 'config': uni_config()}), oracle_selection,
         quick=96, thorough=1920, shrink=False),
+    Sub('selection_large_poor_fit', large_strategy(), oracle_large, quick=32, thorough=480, shrink=False),
     Sub('per_column_configuration', column_strategy(), oracle_columns, quick=160, thorough=4800),
 ]
